@@ -783,12 +783,13 @@ Proof.
 Qed.
 
 Ltac fld_step Hfs f v v' Hv :=
-  let H := fresh "H" in
-  pose proof (fld_rel _ _ _ f Hfs) as H;
-  let E := fresh "E" in let E' := fresh "E" in
-  destruct (fld f _) as [v|] eqn:E; [|destruct (fld f _) as [v'|] eqn:E'; [contradiction H|exact I]];
-  destruct (fld f _) as [v'|] eqn:E'; [|contradiction H];
-  cbn [res_rel] in H; cbn [bind]; rename H into Hv.
+  match type of Hfs with
+  | fields_sim ?fs ?fs' =>
+    pose proof (fld_rel _ _ _ f Hfs) as Hv;
+    let E := fresh "E" in let E' := fresh "E" in
+    destruct (fld f fs) as [v|] eqn:E; destruct (fld f fs') as [v'|] eqn:E';
+    cbn [res_rel bind] in Hv |- *; [ |contradiction Hv|contradiction Hv|exact I]
+  end.
 
 Theorem input_sim fs fs' :
   fields_sim fs fs' -> side KInput fs fs' -> res_sim (post_init KInput fs) (post_init KInput fs').
@@ -801,7 +802,7 @@ Proof.
     try contradiction; [|exact I].
   pose proof (norm_tys_assoc "input" _ _ Hp) as Ha.
   destruct (assoc "input" tin) as [v|], (assoc "input" tin') as [v'|]; try contradiction; [|exact I].
-  cbn [node_sim loose_in loose_out ty_rel ty_norm option_map map fst snd].
+  cbn [res_rel node_sim loose_in loose_out ty_rel ty_norm option_map map fst snd].
   split; [reflexivity|]. split; [apply fields_sim_frel, drop_types_rel, Hfs|].
   split; [f_equal; exact Hp|rewrite Ha; reflexivity].
 Qed.
@@ -817,7 +818,7 @@ Proof.
     try contradiction; [|exact I].
   pose proof (norm_tys_assoc "output" _ _ Hp) as Ha.
   destruct (assoc "output" tout) as [v|], (assoc "output" tout') as [v'|]; try contradiction; [|exact I].
-  cbn [node_sim loose_in loose_out ty_rel ty_norm option_map map fst snd].
+  cbn [res_rel node_sim loose_in loose_out ty_rel ty_norm option_map map fst snd].
   split; [reflexivity|]. split; [apply fields_sim_frel, drop_types_rel, Hfs|].
   split; [rewrite Ha; reflexivity|f_equal; exact Hp].
 Qed.
@@ -879,3 +880,248 @@ Qed.
 Theorem pool_sim k fs fs' :
   k = KSumPool2d \/ k = KAvgPool2d -> fields_sim fs fs' -> res_sim (post_init k fs) (post_init k fs').
 Proof. intros [-> | ->] Hfs; apply leaf_sim_exact, Hfs. Qed.
+
+(* ---- Conv1d -------------------------------------------------------------------------------------------- *)
+Lemma none_match {A} (v : pval) (X Y : A) :
+  match v with VNone => X | _ => Y end = if is_none v then X else Y.
+Proof. destruct v; reflexivity. Qed.
+
+Theorem conv1d_sim fs fs' :
+  fields_sim fs fs' -> side KConv1d fs fs' -> res_sim (post_init KConv1d fs) (post_init KConv1d fs').
+Proof.
+  intros Hfs (Hst & Hz & _ & _). cbn [shape_names no0d_names] in Hst, Hz.
+  inversion Hst as [|? ? Hw _]; subst. clear Hst.
+  inversion Hz as [|? ? [Hp1 Hp2] Hz1]; subst. clear Hz.
+  inversion Hz1 as [|? ? [Hi1 Hi2] Hz2]; subst. clear Hz1.
+  inversion Hz2 as [|? ? [Hs1 Hs2] Hz3]; subst. clear Hz2.
+  inversion Hz3 as [|? ? [Hd1 Hd2] _]; subst. clear Hz3.
+  unfold post_init, res_sim.
+  fld_step Hfs "padding" pad pad' Hpad.
+  rewrite <- (vsim_pad_is_bad_string _ _ Hpad). destruct (pad_is_bad_string pad); [exact I|].
+  fld_step Hfs "input_shape" ish ish' Hish.
+  rewrite !none_match. rewrite <- (vsim_is_none _ _ Hish).
+  destruct (is_none ish); [apply leaf_sim_exact, Hfs|].
+  rewrite (fld_shape_eq _ _ _ Hfs Hw).
+  destruct (fld_shape "weight" fs') as [w|]; cbn [bind]; [|exact I].
+  destruct (py_index w 1) as [c_in|]; cbn [bind]; [|exact I].
+  rewrite <- (vsim_int_view _ _ Hish (fld_no0d_ok _ _ _ Hi1 E1) (fld_no0d_ok _ _ _ Hi2 E2)).
+  destruct (int_view ish) as [n|]; [|exact I].
+  destruct (py_index w 2) as [kk|]; cbn [bind]; [|exact I].
+  destruct (py_index w 0) as [c_out|]; cbn [bind]; [|exact I].
+  fld_step Hfs "stride" st st' Hst.
+  fld_step Hfs "dilation" dil dil' Hdil.
+  rewrite (hp_sim_conv_out (HInt n) (HInt n) (hp_of pad) (hp_of pad') (hp_of dil) (hp_of dil') (HInt kk) (HInt kk)
+             (hp_of st) (hp_of st')); try reflexivity.
+  - destruct (conv_out _ _ _ _ _) as [out|]; cbn [bind]; [|exact I]. apply leaf_sim_exact, Hfs.
+  - apply vsim_hp_of; [exact Hpad|exact (fld_no0d_ok _ _ _ Hp1 E)|exact (fld_no0d_ok _ _ _ Hp2 E0)].
+  - apply vsim_hp_of; [exact Hdil|exact (fld_no0d_ok _ _ _ Hd1 E5)|exact (fld_no0d_ok _ _ _ Hd2 E6)].
+  - apply vsim_hp_of; [exact Hst|exact (fld_no0d_ok _ _ _ Hs1 E3)|exact (fld_no0d_ok _ _ _ Hs2 E4)].
+Qed.
+
+(* ---- Conv2d -------------------------------------------------------------------------------------------- *)
+Lemma pair_agree_either a b cnt :
+  vsim a b -> is0d a = false -> is0d b = false -> ((cnt <= 2)%nat \/ is_pyint a = is_pyint b) ->
+  hp_agree 0 cnt (hp_of (pair_if_int a)) (hp_of (pair_if_int b)).
+Proof.
+  intros H Ha Hb [Hc|Hp]; [apply vsim_pair_agree; assumption|apply hp_sim_agree, vsim_pair_sim; assumption].
+Qed.
+
+Lemma fld_ok_assoc f fs v : fld f fs = Ok v -> assoc f fs = Some v.
+Proof. unfold fld. destruct (assoc f fs); intros H; inversion H; reflexivity. Qed.
+
+Lemma pyint_stable_ok f fs fs' a b :
+  pyint_stable f fs fs' -> fld f fs = Ok a -> fld f fs' = Ok b -> is_pyint a = is_pyint b.
+Proof.
+  unfold pyint_stable. intros H Ea Eb. rewrite (fld_ok_assoc _ _ _ Ea), (fld_ok_assoc _ _ _ Eb) in H. exact H.
+Qed.
+
+Lemma hp_ndim_seq v sp nd : seq_view v = Some sp -> hp_ndim (hp_of v) = Ok nd -> Z.to_nat nd = length sp.
+Proof.
+  intros Hs Hn. rewrite <- hp_ndim_norm, (hp_of_seq _ _ Hs) in Hn. cbn [hp_ndim] in Hn. inversion Hn.
+  unfold lenZ. apply Nat2Z.id.
+Qed.
+
+Theorem conv2d_sim fs fs' :
+  fields_sim fs fs' -> side KConv2d fs fs' -> res_sim (post_init KConv2d fs) (post_init KConv2d fs').
+Proof.
+  intros Hfs (Hst & Hz & _ & Hc). specialize (Hc eq_refl). cbn [shape_names no0d_names] in Hst, Hz.
+  inversion Hst as [|? ? Hw _]; subst. clear Hst.
+  inversion Hz as [|? ? [Hp1 Hp2] Hz1]; subst. clear Hz.
+  inversion Hz1 as [|? ? [Hs1 Hs2] Hz2]; subst. clear Hz1.
+  inversion Hz2 as [|? ? [Hd1 Hd2] _]; subst. clear Hz2.
+  unfold post_init, res_sim.
+  fld_step Hfs "padding" pad pad' Hpad.
+  rewrite <- (vsim_pad_is_bad_string _ _ Hpad). destruct (pad_is_bad_string pad); [exact I|].
+  fld_step Hfs "stride" st st' Hstr.
+  fld_step Hfs "dilation" dil dil' Hdil.
+  pose proof (fld_no0d_ok _ _ _ Hp1 E) as Zp. pose proof (fld_no0d_ok _ _ _ Hp2 E0) as Zp'.
+  pose proof (fld_no0d_ok _ _ _ Hs1 E1) as Zs. pose proof (fld_no0d_ok _ _ _ Hs2 E2) as Zs'.
+  pose proof (fld_no0d_ok _ _ _ Hd1 E3) as Zd. pose proof (fld_no0d_ok _ _ _ Hd2 E4) as Zd'.
+  cbv zeta.
+  assert (Hstored : fields_rel (frel KConv2d)
+            (drop_types (assoc_set "dilation" (pair_if_int dil) (assoc_set "stride" (pair_if_int st)
+                           (assoc_set "padding" (pair_if_int pad) fs))))
+            (drop_types (assoc_set "dilation" (pair_if_int dil') (assoc_set "stride" (pair_if_int st')
+                           (assoc_set "padding" (pair_if_int pad') fs'))))).
+  { apply drop_types_rel. repeat apply assoc_set_rel; [apply fields_sim_frel, Hfs| | |];
+      apply vsim_pair_c2sim; assumption. }
+  fld_step Hfs "input_shape" ish ish' Hish.
+  rewrite !none_match. rewrite <- (vsim_is_none _ _ Hish).
+  destruct (is_none ish).
+  { cbn [res_rel node_sim]. split; [reflexivity|]. split; [exact Hstored|split; apply ty_rel_refl]. }
+  rewrite (fld_shape_eq _ _ _ Hfs Hw).
+  destruct (fld_shape "weight" fs') as [w|]; cbn [bind]; [|exact I].
+  destruct (py_index w 1) as [c_in|]; cbn [bind]; [|exact I].
+  rewrite <- (vsim_seq_view _ _ Hish).
+  destruct (seq_view ish) as [sp|] eqn:Hsp; [|exact I].
+  destruct (py_index w 0) as [c_out|]; cbn [bind]; [|exact I].
+  assert (Hsp' : seq_view ish' = Some sp) by (rewrite <- (vsim_seq_view _ _ Hish); exact Hsp).
+  rewrite (conv_out_agree (hp_of ish) (hp_of ish') (hp_of (pair_if_int pad)) (hp_of (pair_if_int pad'))
+             (hp_of (pair_if_int dil)) (hp_of (pair_if_int dil')) (HSeq (skipn 2 w)) (HSeq (skipn 2 w))
+             (hp_of (pair_if_int st)) (hp_of (pair_if_int st'))).
+  - destruct (conv_out _ _ _ _ _) as [out|]; cbn [bind]; [|exact I].
+    cbn [res_rel node_sim]. split; [reflexivity|]. split; [exact Hstored|split; apply ty_rel_refl].
+  - apply vsim_hp_of; [exact Hish|exact (seq_view_no0d _ _ Hsp)|exact (seq_view_no0d _ _ Hsp')].
+  - intros nd Hnd. rewrite (hp_ndim_seq _ _ _ Hsp Hnd).
+    assert (Hor : forall f a b, In f ["padding"; "stride"; "dilation"] -> fld f fs = Ok a -> fld f fs' = Ok b ->
+                    (length sp <= 2)%nat \/ is_pyint a = is_pyint b).
+    { intros f a b Hin Ea Eb. destruct Hc as [Hc|(C1 & C2 & C3)].
+      - left. exact (Hc _ _ (fld_ok_assoc _ _ _ E5) Hsp).
+      - right. destruct Hin as [<-|[<-|[<-|[]]]];
+          [exact (pyint_stable_ok _ _ _ _ _ C1 Ea Eb)|exact (pyint_stable_ok _ _ _ _ _ C2 Ea Eb)
+          |exact (pyint_stable_ok _ _ _ _ _ C3 Ea Eb)]. }
+    split; [|split; [|split]].
+    + apply pair_agree_either; try assumption. apply (Hor "padding"); [cbn; tauto|exact E|exact E0].
+    + apply pair_agree_either; try assumption. apply (Hor "dilation"); [cbn; tauto|exact E3|exact E4].
+    + apply hp_agree_refl.
+    + apply pair_agree_either; try assumption. apply (Hor "stride"); [cbn; tauto|exact E1|exact E2].
+Qed.
+
+(* ---- MAIN THEOREM ------------------------------------------------------------------------------------------
+   If two field lists have the same keys in the same order and vsim-related values, then post_init k fs and
+   post_init k fs' either both fail, or both succeed with the same kind, vsim-related stored fields (c2sim for
+   the three paired fields of a Conv2d) and the same input/output types (exactly equal, except the dictionary-born
+   types of Input / Output / Flatten which are equal up to the container TArr/TSeq: ty_rel, loose_in, loose_out).
+   SIDE CONDITIONS (`side k fs fs'`), each shown necessary by a counterexample below:
+     S1  shape_stable f     for every f in shape_names k   (fields read through .shape)
+     S2  fld_no0d f on both sides for every f in no0d_names k (fields read through int_view / hp_of / parse_shape)
+     S3  opshape_stable     for CubaLIF (w_in)
+     S4  conv2d_cond        for Conv2d
+   No condition at all for SumPool2d / AvgPool2d.  KGraph is excluded (post_init KGraph always fails: graphs are
+   built by mk_graph), and for it the statement holds trivially, so `k <> KGraph` is not even needed. *)
+Theorem post_init_sim : forall k fs fs',
+  fields_sim fs fs' -> side k fs fs' -> res_sim (post_init k fs) (post_init k fs').
+Proof.
+  intros k fs fs' Hfs Hside.
+  destruct k;
+    try (destruct Hside as (Hst & _); cbn [shape_names] in Hst; unfold post_init;
+         first [apply elementwise_sim; assumption
+               |apply matvec_sim; [assumption|inversion Hst; assumption]]).
+  - apply input_sim; assumption.
+  - apply output_sim; assumption.
+  - apply conv1d_sim; assumption.
+  - apply conv2d_sim; assumption.
+  - apply pool_sim; [left; reflexivity|assumption].
+  - apply pool_sim; [right; reflexivity|assumption].
+  - apply flatten_sim; assumption.
+  - apply cubalif_sim; assumption.
+  - exact I.
+Qed.
+
+(* the form asked for in the task *)
+Corollary post_init_sim' : forall k fs fs',
+  k <> KGraph -> fields_sim fs fs' -> side k fs fs' -> res_sim (post_init k fs) (post_init k fs').
+Proof. intros k fs fs' _. apply post_init_sim. Qed.
+
+(* what res_sim gives about the types, in the vocabulary of tyv_nums *)
+Corollary post_init_sim_types k fs fs' f ti to f' ti' to' k' :
+  fields_sim fs fs' -> side k fs fs' ->
+  post_init k fs = Ok (Leaf k f ti to) -> post_init k fs' = Ok (Leaf k' f' ti' to') ->
+  k = k' /\
+  (loose_in k = false -> ti = ti') /\ (loose_out k = false -> to = to') /\
+  ty_norm ti = ty_norm ti' /\ ty_norm to = ty_norm to'.
+Proof.
+  intros Hfs Hs E E'. pose proof (post_init_sim k fs fs' Hfs Hs) as H. rewrite E, E' in H.
+  cbn [res_sim res_rel node_sim] in H. destruct H as (Hk & _ & Hi & Ho). split; [exact Hk|].
+  unfold ty_rel in Hi, Ho. destruct (loose_in k), (loose_out k);
+    repeat split; try discriminate; try (intros _; assumption); try assumption; subst; reflexivity.
+Qed.
+
+(* ---- the side conditions are necessary: counterexamples (both sides vsim-related field by field) ---- *)
+Definition arr1 : pval := VArr "float32" [3] 7 None.
+(* S1: Scale(scale = 3) raises, Scale(scale = np.int64(3)) does not *)
+Example S1_needed :
+  is_ok (post_init KScale [("scale", VInt 3)]) = false /\
+  is_ok (post_init KScale [("scale", VNp "int64" 0 (Some 3))]) = true.
+Proof. split; reflexivity. Qed.
+(* S2: Flatten(start_dim = 0-d array) raises, the numpy scalar it becomes does not *)
+Example S2_needed :
+  let fs x := [("input_type", VDict [("input", VTuple [VInt 2; VInt 3])]); ("start_dim", x); ("end_dim", VInt (-1))] in
+  is_ok (post_init KFlatten (fs (VArr "int64" [] 0 (Some [0])))) = false /\
+  is_ok (post_init KFlatten (fs (VNp "int64" 0 (Some 0)))) = true.
+Proof. split; reflexivity. Qed.
+(* S3: CubaLIF(w_in = (1, 1, 1)) is rejected by the model, the array it becomes is accepted *)
+Example S3_needed :
+  let fs x := [("tau_syn", arr1); ("tau_mem", arr1); ("r", arr1); ("v_leak", arr1); ("v_threshold", arr1); ("w_in", x)] in
+  is_ok (post_init KCubaLIF (fs (VTuple [VInt 1; VInt 1; VInt 1]))) = false /\
+  is_ok (post_init KCubaLIF (fs (VArr "int64" [3] 0 (Some [1; 1; 1])))) = true.
+Proof. split; reflexivity. Qed.
+(* S4: three spatial entries, stride = 1 (paired, no axis 2) against stride = np.int64(1) (a scalar on every axis) *)
+Example S4_needed :
+  let fs x := [("input_shape", VTuple [VInt 5; VInt 5; VInt 5]); ("weight", VArr "float32" [2; 2; 1; 1; 1] 7 None);
+               ("stride", x); ("padding", VTuple [VInt 0; VInt 0; VInt 0]);
+               ("dilation", VTuple [VInt 1; VInt 1; VInt 1])] in
+  is_ok (post_init KConv2d (fs (VInt 1))) = false /\
+  is_ok (post_init KConv2d (fs (VNp "int64" 0 (Some 1)))) = true.
+Proof. split; reflexivity. Qed.
+
+(* ================================================================================================ *)
+(* (4) files written by other producers: the physical string encoding is not observable (C04)       *)
+(* ================================================================================================ *)
+(* same tree, the `enc` tags of H5Str / H5Strs arbitrary *)
+Inductive h5_enc_sim : h5 -> h5 -> Prop :=
+| es_str e e' s : h5_enc_sim (H5Str e s) (H5Str e' s)
+| es_strs e e' rows : h5_enc_sim (H5Strs e rows) (H5Strs e' rows)
+| es_data v : h5_enc_sim (H5Data v) (H5Data v)
+| es_nil : h5_enc_sim (H5Group []) (H5Group [])
+| es_cons k a b r r' : h5_enc_sim a b -> h5_enc_sim (H5Group r) (H5Group r') ->
+                       h5_enc_sim (H5Group ((k, a) :: r)) (H5Group ((k, b) :: r')).
+
+Lemma h5_enc_sim_refl t : h5_enc_sim t t.
+Proof.
+  revert t. fix IH 1. intros [ms|e s|v|e rows]; try constructor.
+  induction ms as [|[k a] r IHr]; constructor; [apply IH|exact IHr].
+Qed.
+
+Theorem hdf2dict_enc t t' : h5_enc_sim t t' -> hdf2dict t = hdf2dict t'.
+Proof.
+  intros H. induction H as [e e' s|e e' rows|v| |k a b r r' Ha IHa Hr IHr]; try reflexivity.
+  cbn [hdf2dict map fst snd] in *. rewrite IHa. inversion IHr as [Hm]. reflexivity.
+Qed.
+
+Lemma h5_member_enc t t' k : h5_enc_sim t t' ->
+  match h5_member k t, h5_member k t' with
+  | Ok n, Ok n' => h5_enc_sim n n'
+  | Err e, Err e' => e = e'
+  | _, _ => False
+  end.
+Proof.
+  intros H. induction H as [e e' s|e e' rows|v| |k0 a b r r' Ha IHa Hr IHr]; try reflexivity.
+  cbn [h5_member assoc] in *. destruct (String.eqb k k0); [exact Ha|exact IHr].
+Qed.
+
+Theorem read_enc t t' : h5_enc_sim t t' -> read t = read t'.
+Proof.
+  intros H. unfold read. pose proof (h5_member_enc t t' "node" H) as Hm.
+  destruct (h5_member "node" t) as [n|e], (h5_member "node" t') as [n'|e']; try contradiction; cbn [bind].
+  - rewrite (hdf2dict_enc _ _ Hm). reflexivity.
+  - rewrite Hm. reflexivity.
+Qed.
+
+Theorem read_version_enc t t' : h5_enc_sim t t' -> read_version t = read_version t'.
+Proof.
+  intros H. unfold read_version. pose proof (h5_member_enc t t' "version" H) as Hm.
+  destruct (h5_member "version" t) as [n|e], (h5_member "version" t') as [n'|e']; try contradiction; cbn [bind].
+  - destruct Hm; reflexivity.
+  - rewrite Hm. reflexivity.
+Qed.
